@@ -389,6 +389,23 @@ def install():
         if MON.active and MON.in_schedule is not None:
             MON.in_schedule["offers"].append([tkey(t) for t in r])
             MON.in_schedule["offer_objs"].append(list(r))
+            if len(MON.in_schedule["offers"]) == 1:
+                # states at offer time (they change later): offered tasks and starved released tasks
+                now = a[0] if a else kw.get("time")
+                info = []
+                offered = set(id(t) for t in r)
+                starved = []
+                for tg in self._task_graphs.values():
+                    for t in tg.get_nodes():
+                        if id(t) in offered:
+                            parents = tg.get_parents(t)
+                            done = [p.is_complete() for p in parents]
+                            ok = (any(done) if t.terminal else all(done)) if parents else True
+                            info.append((tkey(t), t.state.name, ok, [(tkey(p), p.state.name, us(p.remaining_time)) for p in parents]))
+                        elif t.state == TaskState.RELEASED and t.release_time <= now:
+                            starved.append(tkey(t))
+                MON.in_schedule["offer_info"] = info
+                MON.in_schedule["starved"] = starved
         return r
 
     Workload.get_schedulable_tasks = get_schedulable_tasks
